@@ -28,6 +28,9 @@ type c12ConcCase struct {
 	Gzip      []bool `json:"gzip"`      // per scrape
 	HoldAfter int    `json:"holdAfter"` // scrape 0 is suspended in its (holdAfter+1)-th Write
 	Cut       int    `json:"cut"`
+	// FailedFirst: before the interleaved scrapes, this many gzip scrapes fail while their body is parsed
+	// (the compressed stream breaks off); their decoders go back to the pool
+	FailedFirst int `json:"failedFirst,omitempty"`
 }
 
 type gateWriter struct {
@@ -76,6 +79,11 @@ func runC12Conc(rec *vkit.Recorder, c *c12ConcCase) []vkit.Violation {
 	dir, _ := ioutil.TempDir("", "c12c-")
 	defer os.RemoveAll(dir)
 	rt := rtFunc(func(r *http.Request) (*http.Response, error) {
+		if r.URL.Hostname() == "broken" {
+			z := gz(concPayload(99, 3000))
+			return &http.Response{StatusCode: 200, Status: "200 OK", Body: ioutil.NopCloser(bytes.NewReader(z[:len(z)/2])),
+				Header: http.Header{"Content-Type": []string{"text/plain"}, "Content-Encoding": []string{"gzip"}}, Request: r}, nil
+		}
 		var idx int
 		fmt.Sscanf(r.URL.Hostname(), "h%d", &idx)
 		pl := concPayload(idx, c.Lines[idx])
@@ -102,6 +110,12 @@ func runC12Conc(rec *vkit.Recorder, c *c12ConcCase) []vkit.Violation {
 	ws[0].gate, ws[0].atGate, ws[0].hold = make(chan struct{}), make(chan struct{}), c.HoldAfter
 	serve := func(i int) {
 		n.proxy.ServeHTTP(ws[i], httptest.NewRequest("GET", proxyURL("ja", uint64(100+i), fmt.Sprintf("h%d:80", i), "/metrics", nil), nil))
+	}
+	for i := 0; i < c.FailedFirst; i++ {
+		func() {
+			defer func() { _ = recover() }() // the proxy aborts the response of a scrape that fails mid-body
+			n.proxy.ServeHTTP(httptest.NewRecorder(), httptest.NewRequest("GET", proxyURL("ja", 999, "broken:80", "/metrics", nil), nil))
+		}()
 	}
 	done0 := make(chan struct{})
 	go func() { defer close(done0); serve(0) }()
@@ -131,6 +145,9 @@ func runC12Conc(rec *vkit.Recorder, c *c12ConcCase) []vkit.Violation {
 	}
 	b, _ := json.Marshal(c)
 	cls := []string{"interleaved"}
+	if c.FailedFirst > 0 {
+		cls = append(cls, "interleaved/after-failed-gzip-scrape")
+	}
 	if suspended {
 		cls = append(cls, "interleaved/suspended-mid-body")
 	}
@@ -142,7 +159,8 @@ func TestC12Concurrent(t *testing.T) {
 	rec := recC12()
 	rapid.Check(t, func(t *rapid.T) {
 		k := rapid.IntRange(2, 3).Draw(t, "scrapes")
-		c := &c12ConcCase{HoldAfter: rapid.IntRange(0, 3).Draw(t, "holdAfter"), Cut: rapid.SampledFrom([]int{0, 0, 4096, 65536}).Draw(t, "cut")}
+		c := &c12ConcCase{HoldAfter: rapid.IntRange(0, 3).Draw(t, "holdAfter"), Cut: rapid.SampledFrom([]int{0, 0, 4096, 65536}).Draw(t, "cut"),
+			FailedFirst: rapid.SampledFrom([]int{0, 0, 1, 2}).Draw(t, "failedFirst")}
 		for i := 0; i < k; i++ {
 			lines := rapid.SampledFrom([]int{3, 200, 2500, 9000}).Draw(t, fmt.Sprintf("lines%d", i))
 			if i == 0 {
